@@ -20,7 +20,7 @@
   complete cycle, in `Properties/C01Cycle.lean` (`reachable_order_independent`); the
   regenerated iteration-site table of the *source* is `C01Sites.lean`.
 
-  Partial: the order inside the cells of the location indexes, the file readers, and the instruction generators, rankings and reporters are not covered by the
+  Partial: the file readers and the instruction generators, rankings and reporters are not covered by the
   congruence. Those are decided by running the real code - whole packaged scenarios and
   function-level worlds with tied rankings and multi-fleet vehicles - in separate interpreters under
   different PYTHONHASHSEED values and comparing canonical per-step digests (hashseed layer).
